@@ -48,11 +48,14 @@ Untouched(L, T, o) == SameLdr(o.L, L) /\ SameTab(o.T, T)
 ObsOk(L, obs) == obs = LoadP(L)
 GroupTab(L, op, key) ==   \* the rows a group must contain, before the per-group operation
   Table(L.tab.cols, GroupRows(L.tab, op.col, key))
+GopHow(g) == IF g.name \in {"sample_noseed", "sample_noseed_align"} THEN [name |-> "sample", n |-> g.n] ELSE g
 GroupEntryOk(L, op, g) ==
   /\ g.key \in KeysOf(L.tab, op.col)
   /\ g.ldr.kind = L.kind
-  /\ IF op.gop.name \in {"none", "align"} THEN g.ldr.tab.cols = L.tab.cols /\ IsPermOf(g.ldr.tab.rows, GroupRows(L.tab, op.col, g.key))
-     ELSE TabAccepts(op.gop, GroupTab(L, op, g.key), g.ldr.tab)
+  \* none / align / apply leave the group's rows as they are; sample without a seed is still ONE selection (GopHow); the
+  \* observation of an `apply` is the table it returns for the group, row by row
+  /\ IF op.gop.name \in {"none", "align", "apply"} THEN g.ldr.tab.cols = L.tab.cols /\ IsPermOf(g.ldr.tab.rows, GroupRows(L.tab, op.col, g.key))
+     ELSE TabAccepts(GopHow(op.gop), GroupTab(L, op, g.key), g.ldr.tab)
   /\ ObsOk(g.ldr, g.obs)
 GroupsOk(L, op, groups) ==
   /\ {groups[i].key : i \in 1..Len(groups)} = KeysOf(L.tab, op.col)
